@@ -263,6 +263,7 @@ impl Prop for C03 {
             Some("wanm") => super::files_anm::eval_wanm(case),
             Some("wranm") => super::files_anm::eval_wranm(case),
             Some("anmsrc") => super::files_anm::eval_anmsrc(case),
+            Some("anmwide") => super::files_anm::eval_anmwide(case),
             Some("wr-roundtrip") => {
                 let w = eval_winstr(case, false);
                 if w.head() != Some("ok") { return Sexp::app("rejected", vec![]); }
